@@ -79,7 +79,11 @@ Inductive event :=
 | EExec (t : name) (i : nat) (dry : option bool)      (* action i executed; Some d = got kwarg dryrun=d *)
 | EMsgFile (t : name) (p : path)                      (* stdout: "<t> - removing file '<p>'" *)
 | EMsgDir (t : name) (p : path)                       (* stdout: "<t> - removing dir '<p>'" *)
-| EMsgNotEmpty (t : name) (p : path).                 (* stdout: "<t> - cannot remove (it is not empty) '<p>'" *)
+| EMsgNotEmpty (t : name) (p : path)                  (* stdout: "<t> - cannot remove (it is not empty) '<p>'" *)
+| ERead (t : name) (i : nat) (u : name) (found : bool). (* action i of t asked Globals.dep_manager for the saved
+                                                          state of task u (get_result / get_values / get_value /
+                                                          _in); found = a record of u was there.  Only emitted
+                                                          by the functions of section WithReads below *)
 
 (* w_db = the task ids that have saved state in the dependency DB *)
 Record world := { w_fs : fsys; w_db : list name; w_ev : list event }.
@@ -138,6 +142,55 @@ Fixpoint clean_tasks (dry forget : bool) (ts : list task) (cleaned : list name) 
         let '(l, w3) := clean_tasks dry forget r (t_name t :: cleaned) w2 in
         (t_name t :: l, w3)
   end.
+
+(* ------------------------------------------------------------------ clean actions that look at the DB *)
+(* doc/globals.rst: a clean action may ask `doit.Globals.dep_manager` for the state saved by the last
+   run (get_result, get_values, ...), of its own task or of another one.  [rd t i] = the tasks whose
+   saved state action i of task t looks up, in order.  A look-up does not change what is saved
+   (dependency.py: get only fills the backend's cache); what it finds is what is saved at that moment: a
+   record forgotten earlier in the same command is not found.
+   The functions below are clean_actions / task_clean / clean_tasks with the look-ups added (and nothing
+   else changed: Proofs/CleanP.v [strip]); the versions above are kept as they are for Model/Introspect.v. *)
+Section WithReads.
+  Variable rd : name -> nat -> list name.
+
+  Fixpoint do_reads (t : name) (i : nat) (us : list name) (w : world) : world :=
+    match us with
+    | [] => w
+    | u :: r => do_reads t i r (emit w (ERead t i u (mem u (w_db w))))
+    end.
+
+  Fixpoint clean_actions_rd (t : name) (dry : bool) (i : nat) (acts : list bool) (w : world) : world :=
+    match acts with
+    | [] => w
+    | takes_dry :: r =>
+        let w1 := emit w (EAnnounce t i) in
+        let w2 := if negb dry || takes_dry
+                  then do_reads t i (rd t i) (emit w1 (EExec t i (if takes_dry then Some dry else None)))
+                  else w1 in
+        clean_actions_rd t dry (S i) r w2
+    end.
+
+  Definition task_clean_rd (t : task) (dry : bool) (w : world) : world :=
+    let w0 := emit w (EClean (t_name t)) in
+    match t_clean t with
+    | None => clean_targets t dry w0
+    | Some acts => clean_actions_rd (t_name t) dry 0 acts w0
+    end.
+
+  Fixpoint clean_tasks_rd (dry forget : bool) (ts : list task) (cleaned : list name) (w : world)
+    : list name * world :=
+    match ts with
+    | [] => ([], w)
+    | t :: r =>
+        if mem (t_name t) cleaned then clean_tasks_rd dry forget r cleaned w
+        else
+          let w1 := task_clean_rd t dry w in
+          let w2 := if forget && negb dry then db_remove w1 (t_name t) else w1 in
+          let '(l, w3) := clean_tasks_rd dry forget r (t_name t :: cleaned) w2 in
+          (t_name t :: l, w3)
+    end.
+End WithReads.
 
 (* ------------------------------------------------------------------ CleanDepTree *)
 Inductive res (A : Type) := Ok (a : A) | KeyErr | InvalidCmd | OutOfFuel.
@@ -346,6 +399,17 @@ Section WithFnmatch.
         end
     | KeyErr => KeyErr | InvalidCmd => InvalidCmd | OutOfFuel => OutOfFuel
     end.
+  (* Clean._execute with clean actions that look at the DB (section WithReads) *)
+  Definition clean_execute_rd (rd : name -> nat -> list name) (tb : table) (o : opts) (w : world)
+    : res (list name * world) :=
+    match clean_order tb o with
+    | Ok order =>
+        match lookup_all tb order with
+        | Some ts => Ok (clean_tasks_rd rd (o_dryrun o) (o_forget o) ts [] w)
+        | None => KeyErr
+        end
+    | KeyErr => KeyErr | InvalidCmd => InvalidCmd | OutOfFuel => OutOfFuel
+    end.
 End WithFnmatch.
 Arguments SName {pat} n. Arguments SPat {pat} p.
 Arguments o_dryrun {pat} o. Arguments o_cleandep {pat} o. Arguments o_cleanall {pat} o.
@@ -361,6 +425,7 @@ Definition enc_event (e : event) : list Z :=
   | EMsgFile t p => 4 :: zN t :: enc_path p
   | EMsgDir t p => 5 :: zN t :: enc_path p
   | EMsgNotEmpty t p => 6 :: zN t :: enc_path p
+  | ERead t i u b => [7; zN t; znat i; zN u; zb b]
   end.
 Definition enc_kind (k : kind) : Z := match k with KFile => 0 | KDir => 1 end.
 Definition enc_world (w : world) : list Z :=
